@@ -254,6 +254,14 @@ func genRender(r *run.Rand, thorough bool) *Case {
 		keys := genKeys(r, n, style, true)
 		cs.Rows = pickLimit(r, n)
 		cs.Bar, cs.Pct = r.Intn(4) > 0, r.Bool()
+		if r.Intn(3) == 0 {
+			cs.Bar = false // the histogram command's default
+		}
+		if r.Intn(3) == 0 {
+			// a formatter that shows the bounds it was given: every number on the final screen must have been formatted
+			// against the final maximum (rows drawn before the maximum grew have to be drawn again, bars or no bars)
+			cs.Fmt = "exprmax"
+		}
 		cs.Over = r.Intn(4) == 0
 		var all []Sample
 		for j := 0; j < n; j++ {
